@@ -6,6 +6,7 @@ import Proofs.Lemmas.C02WF
 import Zrnt.Beacon.Impl.Pipeline
 import Proofs.Lemmas.C02Slots
 import Proofs.Lemmas.C02Inv
+import Proofs.Lemmas.C02Link
 import Zrnt.Beacon.Impl.Final
 /-!
 # C02 — slot, epoch and fork-upgrade processing equals the consensus spec
@@ -1069,6 +1070,51 @@ theorem processSlots_eq (cfg : Config) (inps : List SlotInputs) (s : State) (C N
         rw [hus]
       rw [this]; exact hQ3
     · omega
+
+/-! ## The executable oracle and its pure form
+
+The theorems above are about the pure stage functions. `oracle_links`: whenever the executable specification function
+(the monadic one with the `uint64`/index guards that `zmodel c02` runs as the oracle) accepts, its result IS the pure
+stage function's result — proved for `process_slot`, inactivity updates, rewards and penalties (phase0 and altair+;
+here the run-time comparison inside the monadic function is what the proof uses), registry updates, eth1-data reset,
+effective-balance updates, slashings reset, randao-mix reset, participation rotation, sync-committee updates and the
+four upgrades. NOT proved (still compared at run time only): justification (`justification_inputs`), `process_slashings`
+(its total goes through the checked `get_total_balance` fold), the historical accumulators, and the composition
+`process_epoch = ok s' → s' = process_epoch_pure …`. -/
+theorem oracle_links (cfg : Config) (agg : AggOracle) (roots : RootOracle) (s s' : State) :
+    (process_slot cfg roots s = .ok s' → ∃ root, roots s.slot = some root ∧ s' = process_slot_pure cfg root s) ∧
+    (s.fork ≠ .phase0 → process_inactivity_updates cfg s = .ok s' →
+      s' = inactivity_stage cfg (get_previous_epoch cfg s) (get_current_epoch cfg s) s) ∧
+    (process_rewards_and_penalties cfg s = .ok s' → ∃ atts,
+      (s.fork = .phase0 → get_current_epoch cfg s ≠ GENESIS_EPOCH →
+        resolve_attestations cfg s (get_previous_epoch cfg s) = .ok atts) ∧
+      s' = rewards_stage cfg ⟨atts, [], ZERO32, ZERO32, none⟩ (get_previous_epoch cfg s) (get_current_epoch cfg s) s) ∧
+    (process_registry_updates cfg s = .ok s' → s' = registry_stage cfg (get_current_epoch cfg s) s) ∧
+    (process_eth1_data_reset cfg s = .ok s' → s' = eth1_stage cfg (get_current_epoch cfg s) s) ∧
+    (process_effective_balance_updates cfg s = .ok s' → s' = effective_balance_stage cfg s) ∧
+    (process_slashings_reset cfg s = .ok s' → s' = slashings_reset_stage cfg (get_current_epoch cfg s) s) ∧
+    (process_randao_mixes_reset cfg s = .ok s' → s' = randao_stage cfg (get_current_epoch cfg s) s) ∧
+    (s.fork = .phase0 → process_participation_record_updates s = .ok s' → s' = participation_stage s) ∧
+    (s.fork ≠ .phase0 → process_participation_flag_updates s = .ok s' → s' = participation_stage s) ∧
+    (s.fork ≠ .phase0 → process_sync_committee_updates cfg agg s = .ok s' →
+      ∃ computed, s' = sync_stage cfg ⟨[], [], ZERO32, ZERO32, computed⟩ (get_current_epoch cfg s) s) ∧
+    (upgrade_to_altair cfg agg s = .ok s' → ∃ atts c, s' = upgrade_to_altair_pure cfg ⟨atts, some c⟩ s) ∧
+    (upgrade_to_bellatrix cfg s = .ok s' → s' = upgrade_to_bellatrix_pure cfg s) ∧
+    (upgrade_to_capella cfg s = .ok s' → s' = upgrade_to_capella_pure cfg s) ∧
+    (upgrade_to_deneb cfg s = .ok s' → s' = upgrade_to_deneb_pure cfg s) :=
+  ⟨Lemmas.process_slot_link cfg roots s s',
+   fun hf h => Lemmas.inactivity_stage_link cfg s s' h hf,
+   Lemmas.rewards_stage_link cfg s s',
+   Lemmas.registry_stage_link cfg s s',
+   Lemmas.eth1_stage_link cfg s s',
+   Lemmas.effective_balance_stage_link cfg s s',
+   Lemmas.slashings_reset_stage_link cfg s s',
+   Lemmas.randao_stage_link cfg s s',
+   (Lemmas.participation_stage_link s s').1,
+   (Lemmas.participation_stage_link s s').2,
+   fun hf h => Lemmas.sync_stage_link cfg agg s s' h hf,
+   Lemmas.upgrade_altair_link cfg agg s s',
+   (Lemmas.upgrade_links cfg s s').1, (Lemmas.upgrade_links cfg s s').2.1, (Lemmas.upgrade_links cfg s s').2.2⟩
 
 /-- non-vacuity of `processSlots_eq`: a genesis-shaped one-validator state, two slots, `SLOTS_PER_EPOCH = 1`
 (so both slots end an epoch) -/
